@@ -23,6 +23,9 @@ HEADERS = [
     '"""\nModule docstring of the project.\n\n    An indented second paragraph.\n"""\n\nimport os\n',
     "# -*- coding: utf-8 -*-\n# a comment\nimport os\n",
     "PAGE_BREAK = '\x0c'  # a raw form feed inside the literal\nBANNER = \"\"\"page 1\x0cpage 2\n\"\"\"\n",
+    # the export list of a hand-written module: a string literal equal to the simple name of the definition, before it
+    '__all__ = ["@NAME@"]\n',
+    '"""The public names."""\n\n__all__ = ["helper_fn", "@NAME@"]\n\nLABEL = "@NAME@"\n',
 ]
 
 
@@ -127,14 +130,14 @@ def gen_project(r, n_kinds=None, prestates=PRESTATES, allow_method=True, allow_b
             method, name = True, "Outer.ConfigClass"  # a class nested in another class ("method" = dotted name)
         files = []
         if k == truth:
-            tb = r.choice(HEADERS) if allow_before and r.random() < 0.3 else ""
+            tb = (r.choice(HEADERS) if allow_before and r.random() < 0.3 else "").replace("@NAME@", name.split(".")[-1])
             files.append({"name": "truth_%s.py" % k, "prestate": "truth", "content": render(k, ir, name, method, tb), "before": tb, "after": ""})
             extra = r.randint(0, 1) if multi else 0
         else:
             extra = r.randint(1, 2) if multi else 1
         for i in range(extra):
             ps = r.choice(list(prestates) + (["near", "near"] if "near" in prestates else []))
-            before = r.choice(OTHER_SRC[:2] + HEADERS + [""]) if allow_before and r.random() < 0.5 else ""
+            before = (r.choice(OTHER_SRC[:2] + HEADERS + [""]) if allow_before and r.random() < 0.5 else "").replace("@NAME@", name.split(".")[-1])
             after = r.choice(OTHER_SRC[1:2]) if r.random() < 0.3 else ""
             if ps == "missing":
                 content = None
@@ -167,6 +170,8 @@ def materialise(cfg, root):
     for k, kd in cfg["kinds"].items():
         for f in kd["files"]:
             p = os.path.join(root, f["name"])
+            if os.path.dirname(f["name"]):
+                os.makedirs(os.path.dirname(p), exist_ok=True)  # (the directory exists even when the file is missing)
             if f["content"] is not None:
                 with open(p, "w") as fh:
                     fh.write(f["content"])
@@ -201,9 +206,9 @@ def truth_path(cfg, root):
 
 def snapshot(root):
     out = {}
-    for f in sorted(os.listdir(root)):
-        p = os.path.join(root, f)
-        if os.path.isfile(p):
+    for d, _, files in sorted(os.walk(root)):
+        for f in sorted(files):
+            p = os.path.join(d, f)
             with open(p, "rb") as fh:
-                out[f] = fh.read().decode("utf-8", "replace")
+                out[os.path.relpath(p, root)] = fh.read().decode("utf-8", "replace")
     return out
